@@ -60,3 +60,65 @@ Proof. exact orig_encoder_loses_trailing_whitespace. Qed.
 Theorem C30_header_text_terminator_refuted :
   exists h, header_ok h /\ decode_header_orig (encode_header h) <> Ok (h, []).
 Proof. exact header_orig_keeps_terminator. Qed.
+
+(* several hunks (DiffContent): the Rust content decoder reads back every hunk
+   of the encoding, in order, with the addition/deletion totals *)
+Theorem C30_content_roundtrip :
+  forall ps : list (hheader * list modif),
+    Forall (fun p => hunk_wf (fst p) (snd p)) ps ->
+    decode_content (flat_map (fun p => encode_hunk (mk_hunk p)) ps) =
+    Ok (match ps with
+        | [] => CEmpty
+        | _ :: _ => CPlain (map mk_hunk ps) (total_adds ps) (total_dels ps)
+        end).
+Proof. exact content_roundtrip. Qed.
+
+(* the two decoder loops terminate on every input: the fuel the model supplies
+   ([S (length input)]) is never exhausted, because every iteration consumes input *)
+Theorem C30_decoders_terminate :
+  (forall input, decode_hunk input <> OutOfFuel) /\
+  (forall input h rest, decode_hunk input = Ok (h, rest) -> (length rest < length input)%nat) /\
+  (forall input, decode_content input <> OutOfFuel).
+Proof.
+  exact (conj (fun i => proj1 (decode_hunk_fuel false i))
+        (conj (fun i => proj2 (decode_hunk_fuel false i)) decode_content_fuel)).
+Qed.
+
+(* Whole diffs — PARTIAL by design.  `Diff::decode` is libgit2's patch parser
+   followed by radicle-surf's conversion; here it is an oracle in two pieces
+   ([git_header], [git_hunk]) composed as "per file: header, then hunks while the
+   next line starts with `@@ -`".  ASSUMED (checked only by running the real code
+   in the harness, not proved): the header parser reads back the file headers the
+   encoder prints for the class [good_header] (added / deleted / modified files;
+   NOT renamed ones and NOT paths with leading/trailing blanks — both are known
+   findings), and the hunk parser agrees with the Gallina hunk decoder wherever
+   that succeeds.  PROVED: under these assumptions every diff whose files have
+   good headers and well-formed hunks decodes to the same files, headers and
+   lines.  Missing: the file-header grammar itself (paths, quoting, modes,
+   renames, abbreviated blob ids). *)
+Theorem C30_diff_roundtrip_partial :
+  forall (good_header : fheader -> Prop)
+         (git_header : bytes -> option (fheader * bytes))
+         (git_hunk : bytes -> option (bytes * list modif * bytes)),
+    (forall f, good_header f -> f <> FCopied) ->
+    (forall f text rest,
+        good_header f -> encode_fheader f = Ok text -> follows_ok rest ->
+        git_header (text ++ rest) = Some (f, rest)) ->
+    (forall input h rest,
+        decode_hunk input = Ok (h, rest) -> git_hunk input = Some (hline h, hlines h, rest)) ->
+    forall d : list (fheader * list (hheader * list modif)),
+      Forall (file_ok good_header) d ->
+      exists text,
+        encode_diff (map model_file d) = Ok text /\
+        git_decode git_header git_hunk text =
+        Some (map (fun f => (fst f, map hunk_core (snd f))) d).
+Proof. exact diff_roundtrip_partial. Qed.
+
+(* the assumptions are consistent for a non-empty header class, and the theorem
+   then applies to a concrete one-file diff *)
+Example C30_diff_oracle_example :
+  exists text,
+    encode_diff (map model_file [(ex_fheader, [(ex_header, ex_lines)])]) = Ok text /\
+    git_decode ex_git_header ex_git_hunk text =
+    Some [(ex_fheader, [(encode_header ex_header, ex_lines)])].
+Proof. exact ex_diff_roundtrip. Qed.
